@@ -223,9 +223,7 @@ impl fmt::Display for DecryptionKey<'_> {
         }
 
         if let Some(value) = &self.versions {
-            if !value.is_default() {
-                write!(f, ",KEYFORMATVERSIONS={}", value)?;
-            }
+            write!(f, ",KEYFORMATVERSIONS={}", value)?;
         }
 
         Ok(())
